@@ -23,6 +23,9 @@ type c09Case struct {
 	// Before: inbound histories of earlier connections of the same Client on which the server did not offer stream
 	// management (each ends with a drop); the stream-managed session that follows must start counting at zero.
 	Before [][]string `json:"before,omitempty"`
+	// SMResume: the resume attribute of the server's <enabled/> ("" = true, "-" = attribute absent). Acknowledgements
+	// are active either way; without resumption the history has a single connection.
+	SMResume string `json:"sm_resume,omitempty"`
 }
 
 var c09Items = []string{"m", "m", "p", "iq-result", "iq-error", "iq-get", "iq-set", "r", "r", "r", "a", "a", "features", "enabled", "success"}
@@ -32,6 +35,8 @@ func genC09(t *rapid.T) c09Case {
 	nseg := 1
 	if rapid.IntRange(0, 3).Draw(t, "resume") == 0 {
 		nseg = rapid.IntRange(2, 4).Draw(t, "nseg")
+	} else if rapid.IntRange(0, 2).Draw(t, "noresume") == 0 {
+		c.SMResume = rapid.SampledFrom([]string{"-", "false", "0", "1", "true"}).Draw(t, "smresume")
 	}
 	for s := 0; s < nseg; s++ {
 		max := 60
@@ -99,7 +104,7 @@ func runC09(c c09Case) vh.Result {
 	var res vh.Result
 	total := 0 // stanzas the peer has sent on the stream-managed session so far (wire truth)
 	obsc := make(chan c09Obs, 8)
-	script := &peer.Script{Mechs: []string{"PLAIN"}, OfferSM: true, SMId: "sm-c09"}
+	script := &peer.Script{Mechs: []string{"PLAIN"}, OfferSM: true, SMId: "sm-c09", SMResume: c.SMResume}
 	afterNonStanza := false
 	srv, err := peer.Listen(func(pc *peer.Conn) {
 		var o c09Obs
@@ -258,6 +263,9 @@ func runC09(c c09Case) vh.Result {
 	if len(c.Segments) > 1 {
 		res.Label("resumption")
 	}
+	if c.SMResume == "-" || c.SMResume == "false" || c.SMResume == "0" {
+		res.Label("enabled-without-resumption")
+	}
 	if afterNonStanza {
 		res.Label("r-after-non-stanza")
 	}
@@ -266,7 +274,7 @@ func runC09(c c09Case) vh.Result {
 
 var c09 = vh.Define(&vh.Def[c09Case]{
 	Property: "C09", Name: "smcount",
-	Rule: "inbound histories over {message, presence, iq result/error/get/set, <r/>, <a/>, stream features, <enabled/>, SASL success}, 0-60 elements per connection, optionally written in chunks of generated sizes, on 1-4 successive connections of one client (the peer drops the connection and the client resumes), in a quarter of the cases preceded by 1-2 connections of the same client on which the server did not offer stream management (the stream-managed session must then start at zero); a real Client with stream management negotiated against the scripted peer; oracle = wire truth kept by the peer: h of every <a/> written by the client equals the number of stanzas the peer had sent before the <r/>, h of every <resume/> equals the total on the session and previd is the id from <enabled/>; non-trivial = the history has a stanza, an <r/> after a non-stanza element, or a resumption",
+	Rule: "inbound histories over {message, presence, iq result/error/get/set, <r/>, <a/>, stream features, <enabled/>, SASL success}, 0-60 elements per connection, optionally written in chunks of generated sizes, on 1-4 successive connections of one client (the peer drops the connection and the client resumes), in a quarter of the cases preceded by 1-2 connections of the same client on which the server did not offer stream management (the stream-managed session must then start at zero), the server's <enabled/> allowing resumption or not (resume absent / false / 0 / 1 / true; single-connection histories); a real Client with stream management negotiated against the scripted peer; oracle = wire truth kept by the peer: h of every <a/> written by the client equals the number of stanzas the peer had sent before the <r/>, h of every <resume/> equals the total on the session and previd is the id from <enabled/>; non-trivial = the history has a stanza, an <r/> after a non-stanza element, or a resumption",
 	Quick: 2000, Thorough: 24000, Journal: true,
 	Gen: genC09, Run: runC09,
 })
